@@ -104,6 +104,38 @@ def r2_bounded_reads(ctx):
     ctx.floor(rule, n, 1, "socket reads in cascette-ribbit")
 
 
+# (splitting the command line into tokens and trimming the line ending select the product token, they do not rewrite it)
+LOSSY_REQ = re.compile(r"str>?::(to_lowercase|to_uppercase|to_ascii_lowercase|to_ascii_uppercase|replace\w*)$|\[u8\]>::to_ascii_(lower|upper)case$|"
+                       r"String::(truncate|retain|make_ascii_lowercase|make_ascii_uppercase)$|make_ascii_(lower|upper)case$")
+
+
+def r7_product_verbatim(ctx):
+    """the product a client names is the product that is looked up: the database and its validator treat product codes as exact strings
+    (TCP v1/v2 pass them through), so a transport that normalises the name answers with another product's record - or with an error for a
+    product that exists"""
+    rule = "C15.R7"
+    ctx.rule(rule, "the product argument of every database lookup (latest_build / builds_for / get_product ...) in the handlers is the request's product "
+                   "string, unmodified (no case folding, trimming, replacing)")
+    n = 0
+    for b in ctx.prog.bodies.values():
+        if b.krate != "cascette_ribbit" or not re.search(r"/(http|tcp)/", b.file or ""):
+            continue
+        for c in b.calls:
+            if c.bb not in b.live_blocks() or not re.search(r"database::\w+::(latest_build|builds_for_product|get_builds|has_product|product_exists|builds)$|BuildDatabase::\w+$", c.name):
+                continue
+            if len(c.args) < 2 or op_local(c.args[1]) is None:
+                continue
+            n += 1
+            ctx.saw(b)
+            sl = Slice(b, [op_local(c.args[1])], transparent=True)
+            lossy = [x for x in sl.calls if LOSSY_REQ.search(x.name) or LOSSY_REQ.search(x.orig_name or "")]
+            ctx.check(not lossy, rule, [b.id, "product-verbatim", c.name.split("::")[-1]], "the looked-up product is the requested one",
+                      "%s rewrites the requested product with %s before the database lookup: product codes are exact strings in the database and over the other "
+                      "transports, so this transport returns a different product's record (or 404 for a product that exists)" %
+                      (ctx._stable(b.id), lossy[0].name.split("::")[-1] if lossy else ""), c.loc())
+    ctx.floor(rule, n, 4, "database lookups in the ribbit handlers")
+
+
 def r3_isolation(ctx):
     rule = "C15.R3"
     ctx.rule(rule, "one spawned task per connection; handler never awaited inline; no error edge leaves the accept loop")
@@ -117,6 +149,19 @@ def r3_isolation(ctx):
     sp = b.calls_matching(r"tokio::task::spawn::spawn$|tokio::spawn$")
     inline = b.calls_matching(r"tcp::handle_connection$")
     in_loop = bool(sp) and sp[0].bb in b.reachable(b.succ[acc.bb]) and acc.bb in b.reachable(b.succ[sp[0].bb])
+    # the accept loop itself awaits nothing but accept(): any other await point between the accepted connection and the spawn (waiting for the
+    # client to become readable, a handshake, a read) parks the loop on ONE client, outside the handler's timeout
+    if sp:
+        rl_acc, land = result_local(b, acc)
+        between = b.reachable([land], avoid={sp[0].bb}) & {i for i in b.live_blocks() if sp[0].bb in b.reachable([i])}
+        own = set()
+        aw = awaited(b, acc)
+        # yields that belong to awaiting accept() itself: those from which accept's landing block is reachable without passing the spawn
+        yields = [i for i in between if b.blocks[i]["t"]["k"] == "Yield" and i not in b.reachable(b.succ[acc.bb], avoid={land}) ]
+        ctx.check(not yields, rule, [b.id, "no-await-between-accept-and-spawn"], "nothing is awaited between accept() and spawn",
+                  "tcp::start_server awaits something on the accepted connection before handing it to a task (an await point between accept() and tokio::spawn): "
+                  "a client that connects and stays silent parks the accept loop - no other client is accepted or answered until it goes away",
+                  "%s:%d" % (b.file, b.blocks[yields[0]]["t"].get("l", 0)) if yields else acc.loc())
     ctx.check(in_loop and not inline, rule, [b.id, "spawn-per-connection"], "each accepted connection is handed to tokio::spawn",
               "tcp::start_server handles a connection inline in the accept loop (or never spawns): one slow client blocks every other client", acc.loc(),
               sample={"accept": acc.loc(), "spawn": sp[0].loc() if sp else None})
@@ -400,6 +445,7 @@ def run(ctx):
     r1_no_panic(ctx)
     r2_bounded_reads(ctx)
     r3_isolation(ctx)
+    r7_product_verbatim(ctx)
     r4_schema(ctx)
     r5_newest(ctx)
     r6_arity(ctx)
